@@ -18,7 +18,9 @@ RULE = ("seeded sequential histories of 5-40 steps over {request(origin), open-a
         "{0, expiry-eps, expiry+eps, 2*expiry, 0.3}, server closes an idle connection} x 1-4 origins x max_connections "
         "{1,2,3,None} x max_keepalive_connections {0,1,2,None} x keepalive_expiry {0, 5.0, None} x {HTTP/1.1, HTTP/2} x "
         "{asyncio, trio, sync}; distinct+non-trivial = (configuration, set of rule situations that actually occurred: "
-        "reuse-expected, expired-skip, server-closed-skip, surplus-close, eviction, boundary)")
+        "reuse-expected, expired-skip, server-closed-skip, surplus-close, eviction, boundary); plus (asyncio, trio) 'queued' histories: "
+        "2-4 requests queued at max_connections 1-2 over 2-3 origins and served as the held responses are released, with a monitor "
+        "at every transport close (no connection just handed to a queued request is closed before it is used)")
 ASSUMPTIONS = ["op latencies are zero and the clock moves only in explicit steps, so 'idle since' is exact",
                "at the boundary instant now = idle-since + expiry either answer is accepted",
                "which idle connection is closed for surplus/eviction is not prescribed, only how many"]
@@ -265,7 +267,7 @@ def run_case(case):
     flavor = case["flavor"]
     viol = []
     cnt = {k: 0 for k in ["histories", "steps", "r1_reuse_expected", "r2_checks", "r3_checks", "r4_closes_judged",
-                          "expired_situations", "server_closed_situations", "eviction_situations"]}
+                          "expired_situations", "server_closed_situations", "eviction_situations", "queued_histories", "queued_requests"]}
     sigs = set()
     sample = {}
 
@@ -285,8 +287,86 @@ def run_case(case):
             if not sample and len(sit) >= 3:
                 sample.update({"config": cfg, "steps": steps, "situations": sorted(sit)})
 
+    async def main_q():
+        r = random.Random(case["seed"] + 77)
+        for _ in range(max(4, case["n"] // 3)):
+            await run_queued(flavor, r, cnt, v, sigs)
+
     run_flavor(flavor, None, main, seed=case["seed"])
+    if flavor != "sync":
+        run_flavor(flavor, None, main_q, seed=case["seed"])
     return {"viol": viol, "counters": cnt, "sigs": sorted(sigs), "sample": sample or None}
+
+
+async def run_queued(flavor, r, cnt, v, sigs):
+    """Several requests queued at the connection limit, served as held responses are released: within one pass of the pool
+    an idle connection handed to one queued request must not be closed to make room for another one. Monitor at every
+    `close` of a transport: no queued-and-assigned request may be waiting to use the connection that owns it; and every
+    queued request must be answered."""
+    import anyio
+    net = simnet.Net()
+    n_orig = r.choice([2, 3])
+    m = r.choice([1, 1, 2])
+    origins = [endpoints.Origin(net, f"o{i}.test", 80) for i in range(n_orig)]
+    pool = mk_pool(flavor, net, max_connections=m, max_keepalive_connections=r.choice([None, 5]), keepalive_expiry=None)
+    api = API(flavor, pool, net)
+    bad = []
+
+    def ob(rec):
+        if rec["ev"] != "close":
+            return
+        for pr in list(getattr(pool, "_requests", [])):
+            c = getattr(pr, "connection", None)
+            # (in this family every response is keep-alive and nothing fails: the only closes are evictions of idle
+            # connections and the final pool close, neither of which may hit a connection that a request holds)
+            if c is not None and rec["tr"] in owned_transports(c):
+                bad.append({"transport": rec["tr"], "connection": c.info()})
+    net.observers.append(ob)
+    held = []
+    for i in range(m):
+        o = r.randrange(n_orig)
+        CALL.set(f"h{i}")
+        out = await guarded(flavor, lambda o=o, i=i: api.open("GET", f"http://o{o}.test/h{i}", headers=[("X-Token", f"h{i}")]))
+        if out.kind != "ok":
+            return
+        held.append((out.value[1], out.value[0], o))
+    k = r.randint(2, 4)
+    q_origins = [r.randrange(n_orig) for _ in range(k)]
+    results = {}
+
+    async def queued(j):
+        CALL.set(f"q{j}")
+        results[j] = await guarded(flavor, lambda: api.request("GET", f"http://o{q_origins[j]}.test/q{j}", headers=[("X-Token", f"q{j}")]))
+
+    async def releaser():
+        await api.sleep(1.0)   # every queued request has reached the queue, in order
+        for cm, resp, o in held:
+            await api.read(resp)
+            await api.close(cm)
+            await api.sleep(1.0)
+
+    async def body():
+        async with anyio.create_task_group() as tg:
+            for j in range(k):
+                tg.start_soon(queued, j)
+                await api.sleep(0.01)
+            tg.start_soon(releaser)
+        return True
+    out = await guarded(flavor, body)
+    cnt["queued_histories"] += 1
+    cnt["queued_requests"] += k
+    sigs.add(f"queued|{flavor}|m{m}|held{[h[2] for h in held]}|q{q_origins}")
+    ctx = {"flavor": flavor, "max_connections": m, "held_origins": [h[2] for h in held], "queued_origins": q_origins,
+           "connects": [list(t.target) for t in net.transports]}
+    if out.kind != "ok":
+        v("queued:hang", f"{out!r}", ctx)
+    for j, o_ in results.items():
+        if o_.kind != "ok" or o_.value.status != 200:
+            v("queued:request-failed:" + (exc_name(o_.exc) if o_.kind == "exc" else o_.kind), f"q{j}: {o_!r}", ctx)
+    if bad:
+        v("queued:assigned-idle-connection-closed-before-use", f"a transport was closed while a queued request that had just been "
+          f"given its connection was waiting to use it: {bad[:2]}", dict(ctx, closes=bad[:4]))
+    await guarded(flavor, api.close_pool)
 
 
 def plan(tier, seed):
